@@ -93,7 +93,7 @@ func ruleC18Read(p *Prog, r *Result) {
 			continue
 		}
 		fn := p.FuncName(cs.Fn)
-		ok := fn == "bkl.(*Parser).loadFile"
+		ok := fn == "bkl.(*Parser).loadFile" || p.OnlyThrough(cs.Fn, p.Func("bkl.(*Parser).loadFile"))
 		r.Check(ok, "C18.read", fn+" / io.ReadAll", p.InstrPos(cs.Instr), "reads the handle loadFile obtained from the root (or stdin)", "content is read in a function other than loadFile")
 	}
 }
